@@ -220,7 +220,7 @@ class VIter(V):
   raises instead of being yielded when fails[i]; `resumable` says whether
   next() may be called again after it raised (true for random-access readers,
   false for generator objects)."""
-  __slots__ = ('src', 'pos', 'fails', 'resumable', 'ret', 'dead', 'tag', 'err', 'on_elem', 'wrap_fn')
+  __slots__ = ('src', 'pos', 'fails', 'resumable', 'ret', 'dead', 'tag', 'err', 'on_elem', 'wrap_fn', 'kept')
 
   def __init__(self, src, pos, fails=None, resumable=True, ret=None, tag='',
                err='ValueError'):
@@ -230,6 +230,7 @@ class VIter(V):
     self.err = err
     self.on_elem = None      # hook(index term, value): facts about the element just taken
     self.wrap_fn = None      # builds the Python-level value of element i (default: wrap(src.kind, src[i]))
+    self.kept = None         # (count function, ...) of a filtered generator expression
 
   def __repr__(self):
     return f'VIter<{self.tag}>(pos={self.pos})'
